@@ -116,8 +116,10 @@ def run(chk, repo, tier):
         raise AnalysisError('expand_additional_doses not found')
     cfg = CFG(ea.node)
     resets = [n for n in cfg.nodes.values() if isinstance(n.ast, ast.Assign) and "'_RESETGROUP'" in unparse(n.ast.targets[0])]
-    expl = [n for n in cfg.nodes.values() if n.ast is not None and n.kind == 'stmt'
-            and not isinstance(n.ast, (ast.FunctionDef, ast.ClassDef)) and '.explode(' in unparse(n.ast)]
+    from sa import reach
+    expl = [n for n in cfg.nodes.values() if n.ast is not None and n.kind == 'stmt' and isinstance(n.ast, ast.stmt)
+            and reach.stmt_or_local_callee(ea.node, n.ast, lambda x: isinstance(x, ast.Call) and isinstance(
+                x.func, ast.Attribute) and x.func.attr == 'explode')]
     if not resets or not expl:
         raise AnalysisError('Q4: reset group / explode steps not found in expand_additional_doses')
     for e in expl:
